@@ -221,10 +221,12 @@ structure RetainOut where
   deriving Repr, DecidableEq
 
 /-- `String::retain`'s `while idx < len` loop.  The closure is data: `ans k` is what the
-`k`-th call answers (`true` = keep), `panicAt = some k` makes the `k`-th call panic.  On a
-panic nothing else runs: there is no guard object, `len` is not touched, the bytes moved so
-far stay moved (F6). -/
-def retainLoop (ans : Nat → Bool) (panicAt : Option Nat) (len : Nat) :
+`k`-th call answers (`true` = keep), `panicAt = some k` makes the `k`-th call panic.
+`guard = false` is the loop of the pinned tree: on a panic nothing else runs, there is no guard
+object, `len` is not touched, the bytes moved so far stay moved (F6).  `guard = true` is the
+loop with a `SetLenOnDrop` guard (std's, and proposed_fixes/F6-string-retain.diff): unwinding
+runs its destructor, which sets `len = idx - del_bytes`. -/
+def retainLoop (guard : Bool) (ans : Nat → Bool) (panicAt : Option Nat) (len : Nat) :
     Nat → RetainSt → Outcome RetainOut
   | 0, st => if st.idx < len then .bad "retain: out of fuel" else
       .ok ⟨if st.del > 0 then st.buf.take (len - st.del) else st.buf, false, st.calls⟩
@@ -234,22 +236,28 @@ def retainLoop (ans : Nat → Bool) (panicAt : Option Nat) (len : Nat) :
       | none => .bad "retain: text is not UTF-8"
       | some (_, chLen) =>
         if st.idx + chLen > len then .bad "retain: char runs past len" else
-        if panicAt = some st.calls then .ok ⟨st.buf, true, st.calls + 1⟩
+        if panicAt = some st.calls then
+          .ok ⟨if guard then st.buf.take (st.idx - st.del) else st.buf, true, st.calls + 1⟩
         else if !(ans st.calls) then
-          retainLoop ans panicAt len fuel
+          retainLoop guard ans panicAt len fuel
             { st with del := st.del + chLen, idx := st.idx + chLen, calls := st.calls + 1 }
         else if st.del > 0 then
-          retainLoop ans panicAt len fuel
+          retainLoop guard ans panicAt len fuel
             { buf := copyWithin st.buf st.idx (st.idx - st.del) chLen, idx := st.idx + chLen,
               del := st.del, calls := st.calls + 1 }
         else
-          retainLoop ans panicAt len fuel { st with idx := st.idx + chLen, calls := st.calls + 1 }
+          retainLoop guard ans panicAt len fuel { st with idx := st.idx + chLen, calls := st.calls + 1 }
     else
       .ok ⟨if st.del > 0 then st.buf.take (len - st.del) else st.buf, false, st.calls⟩
 
-/-- `String::retain` -/
+/-- `String::retain`, with or without the unwind guard -/
+def retainWith (guard : Bool) (s : Bytes) (ans : Nat → Bool) (panicAt : Option Nat) : Outcome RetainOut :=
+  retainLoop guard ans panicAt s.length (s.length + 1) ⟨s, 0, 0, 0⟩
+
+/-- `String::retain` as the source has it (whether the guard exists is regenerated from the
+source by tools/extract_str.py) -/
 def retain (s : Bytes) (ans : Nat → Bool) (panicAt : Option Nat) : Outcome RetainOut :=
-  retainLoop ans panicAt s.length (s.length + 1) ⟨s, 0, 0, 0⟩
+  retainWith (Gen.STR_RETAIN_GUARD == 1) s ans panicAt
 
 /-- the closure of the harness: answers from a list, `true` beyond its end -/
 def ansOf (l : List Bool) (k : Nat) : Bool := l.getD k true
@@ -293,16 +301,20 @@ def drainCore (s : Bytes) (start end_ take back : Nat) (forget : Bool) : Outcome
         else if start ≤ end_ ∧ end_ ≤ s.length then s.take start ++ s.drop end_ else s
       .ok ⟨bytes, front, backs⟩
 
-/-- `String::drain(range)` -/
-def drain (ovf : Bool) (s : Bytes) (sb eb : Bd) (take back : Nat) (forget : Bool) : Outcome DrainOut :=
-  match rangeStart (drainOvf ovf) sb with
+/-- `String::drain(range)`; `o` = is `n + 1` overflow-checked -/
+def drainWith (o : Bool) (s : Bytes) (sb eb : Bd) (take back : Nat) (forget : Bool) : Outcome DrainOut :=
+  match rangeStart o sb with
   | .ok start =>
-    match rangeEnd (drainOvf ovf) s.length eb with
+    match rangeEnd o s.length eb with
     | .ok end_ => drainCore s start end_ take back forget
     | .panic => .panic
     | _ => .bad "drain"
   | .panic => .panic
   | _ => .bad "drain"
+
+/-- `String::drain` under the build profile `ovf` -/
+def drain (ovf : Bool) (s : Bytes) (sb eb : Bd) (take back : Nat) (forget : Bool) : Outcome DrainOut :=
+  drainWith (drainOvf ovf) s sb eb take back forget
 
 /-- first `match` of `replace_range`: `assert!(self.is_char_boundary(start))` -/
 def startAssert (ovf : Bool) (s : Bytes) : Bd → Outcome Unit
@@ -334,14 +346,19 @@ def spliceBytes (ovf : Bool) (s : Bytes) (sb eb : Bd) (t : Bytes) : Outcome Byte
     | _ => .panic
   | _ => .panic
 
-/-- `String::replace_range`: the two boundary assertions, then `Vec::splice(range, bytes)` -/
-def replaceRange (ovf : Bool) (s : Bytes) (sb eb : Bd) (t : Bytes) : Outcome Bytes :=
-  match startAssert (replaceOvf ovf) s sb with
+/-- `String::replace_range`: the two boundary assertions, then `Vec::splice(range, bytes)`;
+`o₁`/`o₂` = is `n + 1` overflow-checked in `replace_range` / in `Vec::drain` -/
+def replaceRangeWith (o₁ o₂ : Bool) (s : Bytes) (sb eb : Bd) (t : Bytes) : Outcome Bytes :=
+  match startAssert o₁ s sb with
   | .ok () =>
-    match endAssert (replaceOvf ovf) s eb with
-    | .ok () => spliceBytes (vecDrainOvf ovf) s sb eb t
+    match endAssert o₁ s eb with
+    | .ok () => spliceBytes o₂ s sb eb t
     | _ => .panic
   | _ => .panic
+
+/-- `String::replace_range` under the build profile `ovf` -/
+def replaceRange (ovf : Bool) (s : Bytes) (sb eb : Bd) (t : Bytes) : Outcome Bytes :=
+  replaceRangeWith (replaceOvf ovf) (vecDrainOvf ovf) s sb eb t
 
 /-- `Extend<char>` -/
 def extendChars (s : Bytes) (cs : List Char) : Bytes := cs.foldl push s
